@@ -1,3 +1,65 @@
-/-! Model for property C09 (core Lean only; no Mathlib). -/
+/-! Model for property C09 (BUG integrators): the recursion order of `root_update` /
+`update_node` / `update_non_leaf_node` (`pytreenet/time_evolution/time_evo_util/common_bug.py`).
+Core Lean only.
+
+A tree is given with the children of every node in the order in which the recursion visits them
+(the code iterates over a `frozenset` of the children, so that order is not fixed by the library;
+the harness reads it off the observed run).
+
+* `updates`  — the sequence of local Galerkin evolutions (one per node): for a node, first all
+               children subtrees (recursively), then the node itself; the root last.
+* `moves`    — the centre moves `parent → child` performed on the working copy before a child's
+               update. -/
 namespace Ptn.C09
+
+mutual
+inductive Tree where
+  | node (id : Nat) (kids : Forest)
+inductive Forest where
+  | nil
+  | cons (t : Tree) (f : Forest)
+end
+
+mutual
+def Tree.ids : Tree → List Nat
+  | .node id kids => id :: kids.ids
+def Forest.ids : Forest → List Nat
+  | .nil => []
+  | .cons t f => t.ids ++ f.ids
+end
+
+def Tree.root : Tree → Nat
+  | .node id _ => id
+
+def Forest.roots : Forest → List Nat
+  | .nil => []
+  | .cons t f => t.root :: f.roots
+
+mutual
+/-- Order of the local evolutions. -/
+def Tree.updates : Tree → List Nat
+  | .node id kids => kids.updates ++ [id]
+def Forest.updates : Forest → List Nat
+  | .nil => []
+  | .cons t f => t.updates ++ f.updates
+end
+
+mutual
+/-- (parent, child) edges in the tree. -/
+def Tree.edges : Tree → List (Nat × Nat)
+  | .node id kids => kids.roots.map (fun c => (id, c)) ++ kids.edges
+def Forest.edges : Forest → List (Nat × Nat)
+  | .nil => []
+  | .cons t f => t.edges ++ f.edges
+end
+
+mutual
+/-- Centre moves on the working copies, in order of occurrence. -/
+def Tree.moves : Tree → List (Nat × Nat)
+  | .node id kids => kids.movesFrom id
+def Forest.movesFrom (p : Nat) : Forest → List (Nat × Nat)
+  | .nil => []
+  | .cons t f => (p, t.root) :: (t.moves ++ f.movesFrom p)
+end
+
 end Ptn.C09
